@@ -14,7 +14,7 @@ out = {"property": pid, "variant": v, "summary": m.get("summary"), "needs_to_man
        "files_touched": m.get("files_touched"),
        "author": "independent sub-agent given only the property text%s and a scratch worktree" % (" (round 2: plus the two earlier summaries to avoid)" if v in "cd" else " (round 3: plus the four earlier summaries to avoid)" if v in "ef" else " (round 4: plus the six earlier summaries to avoid)" if v in "gh" else " (round 5: plus the eight earlier summaries to avoid)" if v in "ij" else ""),
        "author_ran": m.get("ran")}
-for k in ("detected_by", "detected", "violation_keys", "confirmed_by_main_session"):
+for k in ("detected_by", "detected", "violation_keys", "confirmed_by_main_session", "declared_not_decided"):
     if k in old:
         out[k] = old[k]
 cf = os.path.join(src, "confirm.json")
